@@ -406,8 +406,16 @@ def run(tier, seed, replay=None):
                              "explanation": "replay"})
         return rep.finish()
 
+    # stale replay files of earlier runs would be misleading
+    rd = os.path.join(C.ROOT, "replays")
+    if os.path.isdir(rd):
+        for fn in os.listdir(rd):
+            if fn.startswith(PID + "-"):
+                os.unlink(os.path.join(rd, fn))
     r = C.Rng(seed)
     nprog = 300 if tier == "quick" else 20000
+    if os.environ.get("C01_NPROG"):
+        nprog = int(os.environ["C01_NPROG"])      # development aid
     ninp = 3 if tier == "quick" else 4
     feats = Counter()
     constructs = Counter()
